@@ -16,6 +16,15 @@ replay: each finished case is rendered to a module; runner.doctest_module
         xdoctest.__main__.main must return the predicted status; 'list' must
         print every doctest; a rotating sample also through a
         `python -m xdoctest` subprocess.
+trace : code -> spec.  The session part of the probe records, for every call of
+        runner.doctest_module, what was collected (with the force-disabled and
+        named flags), what was selected, every DocTest.run of the loop with
+        its outcome, the tallies, the returned summary and the status returned
+        by the command line entry point; specs/SessionTrace.tla (the native
+        front end of Session.tla with the outcomes read from the events)
+        must accept every recorded session: a sample of the modelled modules,
+        the library's own doctests, and the repository tests that drive the
+        runner.
 """
 import contextlib
 import io
@@ -123,6 +132,65 @@ def sig(info):
     return {'kind': 'native_runner', 'fields': ','.join(sorted({b[0].split('[')[0].split('(')[0] for b in info['bad']}))}
 
 
+def session_trace_phase(out, raws, tier):
+    """code -> spec: sessions recorded from the real runner (probe, session part) must be behaviours of SessionTrace.tla.
+    (a) a sample of the modelled modules replayed with the probe on (all commands, the command line entry point);
+    (b) the repository's own doctests and the tests that drive the runner."""
+    import random
+    from . import tracelib, probe
+    d = common.scratch_dir('xdv-c10tr')
+    prefix = os.path.join(d, 'tr')
+    sample = random.Random(common.seed() + 10).sample(raws, min(len(raws), 600 if tier == 'quick' else 6000))
+    os.environ['XDOCTEST_VERIF_TRACE'] = prefix
+    probe.install()
+    cli = _J['cli']
+    _J['cli'] = 0
+    try:
+        for raw in sample:
+            _one(raw)
+    finally:
+        _J['cli'] = cli
+        os.environ.pop('XDOCTEST_VERIF_TRACE', None)
+    for f in (probe._out, probe._sess_out):
+        if f[0] is not None:
+            f[0].flush()
+    sessions, _ = tracelib.load_sessions(prefix)          # (validation removes the scratch directories)
+    tracelib.validate_sessions(out, prefix, 'modelled modules', minimum=len(sample) // 2)
+    # the binding is not vacuous: a session whose tallies, selection or exit status were tampered with must be rejected
+    import copy
+    tampered = []
+    for field, pick in (('nP', lambda e: e['e'] == 'Tally'), ('idxs', lambda e: e['e'] == 'Gather' and len(e['idxs']) >= 2), ('code', lambda e: e['e'] == 'MainExit')):
+        for sess in sessions:
+            hit = [n for n, e in enumerate(sess) if pick(e)]
+            if hit:
+                t = copy.deepcopy(sess)
+                e = t[hit[0]]
+                if field == 'nP':
+                    e['nP'] += 1
+                elif field == 'idxs':
+                    e['idxs'] = e['idxs'][1:]
+                else:
+                    e['code'] = 1 - e['code']
+                tampered.append((field, t))
+                break
+    if len(tampered) < 3:
+        raise common.MachineryError('session traces: no session to tamper with for some field (%s)' % [f for f, _ in tampered])
+    for field, t in tampered:
+        tmp = common.Outcome(out.prop, out.tier)
+        if tracelib.validate(tmp, [t], 'tampered ' + field, spec='SessionTrace') != 1:
+            raise common.MachineryError('SessionTrace.tla accepted a session whose %s was tampered with' % field)
+    out.extra['session_trace_tampering_rejected'] = [f for f, _ in tampered]
+    d2 = common.scratch_dir('xdv-c10suite')
+    prefix2 = os.path.join(d2, 'tr')
+    log1 = tracelib.record_library_doctests(prefix2, tracelib.LIB_MODULES[tier])
+    log2 = tracelib.record_pytest(prefix2, ['tests/test_runner.py', 'tests/test_core.py', 'tests/test_errors.py', 'tests/test_entry_point.py', 'tests/test_dynamic.py',
+                                            'tests/test_notebook.py'] if tier == 'quick' else ['tests'])
+    try:
+        tracelib.validate_sessions(out, prefix2, 'repository suite', minimum=10)
+    except common.MachineryError as ex:
+        raise common.MachineryError('%s\n%s\n%s' % (ex, log1[-600:], log2[-600:]))
+
+
 def run(tier):
     out = common.Outcome('C10', tier)
     b = BOUNDS[tier]
@@ -148,6 +216,7 @@ def run(tier):
         out.count_nontrivial(info['key'])
         if 'bad' in info:
             out.violation(sig(info), {'module_source': info['text'], 'case': info['case'], 'command': info['command'], 'disagreements': info['bad']})
+    session_trace_phase(out, raws, tier)
     common.cleanup_scratch()
     for dev in ('NoDisabledFilter', 'FailedNotRecorded', 'ExitOnlyIfTwoFail'):
         sessionlib.deviation_must_fail(out, dev, kinds=KINDS, maxdocs=2, commands=('all', 'named'), fronts=('native',))
